@@ -272,7 +272,7 @@ pub fn run(ctx: &Ctx) {
      unwrap, cut, generic arguments, operator, group choice, comment}; distinct = distinct source text.",
   );
   ctx.assume("skeleton equality ignores spans, comment fields and the optional-comma flag (layout, not meaning)");
-  let n = ctx.tier.pick(24_000, 600_000);
+  let n = ctx.tier.pick(300_000, 6_000_000);
 
   let opts = SynOpts::default();
   search(ctx, "roundtrip_syn", n, 220, |t: &mut Tape, st: &mut Stats| {
